@@ -336,7 +336,9 @@ class ExprMixin(ExecBase):
                     consts = {}
                 if attr in consts:
                     return [(st, self.py_const(consts[attr]))]
-            if th.kind in ("class", "import", "modattr"):
+            if th.kind in ("class", "import", "modattr", "classattr"):
+                # (also an attribute of a class attribute, e.g. ConsumerProtocol.ASSIGNMENT.decode: an opaque callable
+                # that only a call model of the contract can give a meaning)
                 return [(st, V(PYOBJ, PyThing("classattr", owner=th, name=attr)))]
             if th.kind == "selfcls":
                 cm_mod = self.module
